@@ -8,10 +8,32 @@ def classify(rec, v):
     return "C02/render-mismatch"
 
 
+def inverse_use_family():
+    docs = []
+    pairs = [([["translate", 3, 1]], {"g": [-3, -1], "tf": None}), ([["translate", 3, 1]], {"g": [0, 0], "tf": [["translate", -3, -1]]}),
+             ([["scale", 2, 2, 1]], {"g": [0, 0], "tf": [["scale", 1, 1, 2]]}), ([["scale", 2, 1, 1]], {"g": [0, 0], "tf": [["scale", 1, 2, 2]]}),
+             ([["rotate", 90, 8, 8]], {"g": [0, 0], "tf": [["rotate", 270, 8, 8]]}),
+             ([["matrix", 0, 1, 1, 0, 0, 0]], {"g": [0, 0], "tf": [["matrix", 0, 1, 1, 0, 0, 0]]}),
+             ([["translate", -2, 2]], {"g": [2, -2], "tf": None}), ([["scale", -1, 1, 1]], {"g": [0, 0], "tf": [["scale", -1, 1, 1]]})]
+    for ttf, u in pairs:
+        for target in (("rect", [2, 3, 5, 4, -1, -1]), ("polygon", [2, 2, 12, 3, 5, 11])):
+            for in_defs in (False, True):
+                nodes = []
+                if in_defs:
+                    nodes.append({"d": 1, "tag": "defs", "id": "", "at": [], "g": [], "ref": ""})
+                nodes.append({"d": 2 if in_defs else 1, "tag": target[0], "id": "t", "g": target[1], "ref": "",
+                              "at": [["fill", "red", 0], ["transform", ttf, 0]]})
+                nodes.append({"d": 1, "tag": "use", "id": "", "g": u["g"], "ref": "t",
+                              "at": [["fill", "blue", 0]] + ([["transform", u["tf"], 0]] if u["tf"] else [])})
+                docs.append({"vb": [0, 0, 16, 16], "view": [0, 0, 16, 16], "root": [], "nodes": nodes})
+    return docs
+
+
 def run(out, tier):
     wd = common.workdir("c02")
     try:
-        recs, texts, verdicts = render.run_render(out, "C02", "struct", tier, 1200, 12000, wd=wd)
+        recs, texts, verdicts = render.run_render(out, "C02", "struct", tier, 1200, 12000, wd=wd,
+                                                  extra_docs=inverse_use_family())
         cov = out.coverage
         cov["rule"] = ("documents drawn by TLC -simulate from Build.tla (Focus=struct: 7 basic shapes + "
                        "paths with relative commands, nested groups, transform lists, defs, use with "
